@@ -1,10 +1,11 @@
 ---------------------------- MODULE SplitterTrace ----------------------------
 (* Trace validation for Splitter: every line is one call of the real         *)
 (* rag.SizeCalculator.SplitToSize (directly or through a chunker):           *)
-(*   Split {t, r, valid, found, term, unit, limit, cpt}                      *)
+(*   Split {t, r, pc, valid, found, term, unit, limit, cpt}                  *)
 (*     t      the text, run-length encoded <<bytes per char, class, count>>  *)
 (*     r      where each returned piece lies in the text (byte ranges of its *)
 (*            non-white content, located by the harness)                     *)
+(*     pc     characters of each piece without surrounding white space       *)
 (*     valid  utf8.ValidString of each piece                                 *)
 (*     found  every piece could be located, in order, without overlap        *)
 (*     term   the call returned before the deadline                          *)
@@ -29,7 +30,7 @@ EvClause(e) ==
     IF ~e.term THEN "termination"
     ELSE IF \E i \in 1..Len(e.valid) : ~e.valid[i] THEN "utf8"
     ELSE IF ~e.found THEN "conservation"
-    ELSE SplitClause(e.t, e.r, e.unit, e.limit, e.cpt)
+    ELSE SplitClause(e.t, e.r, e.pc, e.unit, e.limit, e.cpt)
 
 Report(cl) == PrintT(ToJson([line |-> l, clause |-> cl]))
 
